@@ -52,7 +52,7 @@ inductive Cause
   | permission    -- *PathError{EACCES}
   | isDirectory   -- *PathError{EISDIR}
   | parse         -- a yaml.v3 error
-  | other         -- any other *PathError (the harness produces ENOTDIR)
+  | other         -- any other *PathError (the harness produces ELOOP: a symbolic link to itself)
   | text (msg : String)   -- errors.New(msg): no errno, used to exercise the decision table
 deriving DecidableEq, Repr
 
@@ -62,7 +62,7 @@ def Cause.message : Cause → String
   | .permission => "open P: permission denied"
   | .isDirectory => "read P: is a directory"
   | .parse => "yaml: <detail>"
-  | .other => "open P: not a directory"
+  | .other => "open P: too many levels of symbolic links"
   | .text m => m
 
 /-- Go `error` values that occur on the loading path -/
@@ -105,7 +105,7 @@ def classifyLoadError : Option Cause → Err
 
 /-- what is wrong (or not) with one file -/
 inductive FileState
-  | missing | denied | directory | malformed | notDir
+  | missing | denied | directory | malformed | other
   | good (cmds : List Cmd)
 deriving DecidableEq, Repr
 
@@ -115,7 +115,7 @@ def readAndParse : FileState → Except Cause (List Cmd)
   | .denied => .error .permission
   | .directory => .error .isDirectory
   | .malformed => .error .parse
-  | .notDir => .error .other
+  | .other => .error .other
   | .good cs => .ok cs
 
 /-- `database.LoadDatabase` -/
